@@ -38,4 +38,6 @@ RClosed(r) == r.term # "none" \/ r.stopped
 ReadResults(r) == IF RClosed(r) THEN {"ClosedStream"} ELSE {"Data", "Blocked", "Finished", "Reset"}
 \* RecvStream::stop
 StopResults(r) == IF RClosed(r) THEN {"ClosedStream"} ELSE {"Ok"}
+\* RecvStream::received_reset: the reset code once (then the half is gone), nothing while no reset arrived
+ReceivedResetResults(r) == IF RClosed(r) THEN {"ClosedStream"} ELSE {"None", "Some"}
 =============================================================================
